@@ -250,9 +250,34 @@ def _elem_typed(f_kind, type_name, wraps, v, depth):
     return _scalar_typed(f_kind, type_name, v)
 
 
+def decl_class(f, part=None):
+    """Coarse declared class of a field (or of its map key / value)."""
+    if part == "key":
+        kind, tn, wraps = f.key_kind, None, None
+    elif part == "value":
+        kind, tn, wraps = f.value_kind, f.value_type_name, None
+    else:
+        kind, tn, wraps = f.kind, f.type_name, f.wraps
+    if wraps:
+        return "wrapper"
+    if kind == "message":
+        return {"Timestamp": "timestamp", "Duration": "duration"}.get(tn, "message")
+    if kind in ("string", "bytes", "enum", "bool", "map"):
+        return kind
+    if kind in ("float", "double"):
+        return "float"
+    return "int"
+
+
+def _holds(v):
+    if isinstance(v, betterproto.Message):
+        return "Message"
+    return type(v).__name__
+
+
 def typed_problems(m, depth=0):
     """List of (field, tag, description) where a field of m does not hold a
-    value of its declared Python type."""
+    value of its declared Python type.  tag: <declared class>-holds-<type>."""
     out = []
     if depth > 12:
         return out
@@ -266,30 +291,30 @@ def typed_problems(m, depth=0):
         if not ok:
             out.append((f, "unreadable", "selected/declared field unreadable"))
             continue
-        tag = f.elem_kind.replace("msg:", "message-") if f.kind != "map" else "map"
         if f.kind == "map":
             if not isinstance(v, dict):
-                out.append((f, "map-not-dict", "%s" % short(v)))
+                out.append((f, "map-holds-%s" % _holds(v), "%s holds %s" % (f.name, short(v))))
                 continue
             for k, item in v.items():
                 if not _scalar_typed(f.key_kind, None, k):
-                    out.append((f, "map-key-%s" % f.key_kind, "key %s" % short(k)))
+                    out.append((f, "map-key-%s-holds-%s" % (decl_class(f, "key"), _holds(k)), "%s key %s" % (f.name, short(k))))
                 if not _elem_typed(f.value_kind, f.value_type_name, None, item, depth):
-                    out.append((f, "map-value-%s" % f.value_kind, "value %s" % short(item)))
+                    out.append((f, "map-value-%s-holds-%s" % (decl_class(f, "value"), _holds(item)), "%s value %s" % (f.name, short(item))))
             continue
+        dc = decl_class(f)
         if f.label == "repeated":
             if not isinstance(v, list):
-                out.append((f, "repeated-%s-not-list" % tag, short(v)))
+                out.append((f, "repeated-%s-holds-%s" % (dc, _holds(v)), "%s holds %s" % (f.name, short(v))))
                 continue
             for item in v:
                 if not _elem_typed(f.kind, f.type_name, f.wraps, item, depth):
-                    out.append((f, "repeated-%s-element" % tag, short(item)))
+                    out.append((f, "repeated-%s-element-holds-%s" % (dc, _holds(item)), "%s element %s" % (f.name, short(item))))
                     break
             continue
         if v is None:
             if not (f.label == "optional" or f.wraps):
-                out.append((f, "%s-none" % tag, "None in a non-optional field"))
+                out.append((f, "%s-holds-NoneType" % dc, "%s is None (not optional)" % f.name))
             continue
         if not _elem_typed(f.kind, f.type_name, f.wraps, v, depth):
-            out.append((f, "%s-%s" % (f.label.split(":")[0], tag), "%s holds %s" % (f.name, short(v))))
+            out.append((f, "%s-holds-%s" % (dc, _holds(v)), "%s holds %s" % (f.name, short(v))))
     return out
